@@ -407,9 +407,25 @@ def main(pid, fn, level="model_checking"):
     seed = int(os.environ.get("VERIF_SEED", "1") or "1")
     run = Run(pid, a.tier if a.tier in ("quick", "thorough") else "quick", seed, level)
     run.replay = a.replay
+    if not a.replay:
+        # replay files always belong to the run that printed them
+        shutil.rmtree(os.path.join(VERIF, "replays", pid), ignore_errors=True)
     try:
         fn(run)
-        rc = run.finish()
+        if a.replay:
+            # --replay <file>: the check is run again and the recorded scenario is looked for among what it finds now
+            # (exit 1: it shows again; exit 0: it does not; the evidence file is rewritten as by any run)
+            rec = json.load(open(a.replay))
+            if isinstance(rec, list):
+                rec = rec[0] if rec else {}
+            volatile = {"run", "choices", "worker", "issued"}
+            same = lambda v: all(v.get(k) == rec[k] for k in rec if k not in volatile and k in v) and v.get("check") == rec.get("check")
+            again = any(same(v) for v in run.violations)
+            print("REPLAY property=%s file=%s reproduced=%s" % (pid, a.replay, "yes" if again else "no"))
+            run.finish()
+            rc = 1 if again else 0
+        else:
+            rc = run.finish()
     except Inconclusive as e:
         log("INCONCLUSIVE %s: %s" % (pid, e))
         rc = 2
